@@ -86,7 +86,7 @@ def to_trace(obs_rows):
         calls = o["calls"]
         for i, c in enumerate(calls):
             dclass = c.get("dclass") or o["dclass"]
-            case_lines.append({"e": "call", "entry": c["entry"], "hasChan": c["hasChan"], "pclass": o["pclass"],
+            case_lines.append({"e": "call", "entry": c["entry"], "hasChan": c["hasChan"], "pclass": c.get("pclass") or o["pclass"],
                                "dclass": dclass if c["entry"] != "compile" else "unknown"})
             for t in c["events"]:
                 case_lines.append({"e": "ev", "t": t})
